@@ -127,6 +127,8 @@ def install(ctx):
             b = self._base
             if b == "tpy_mp.log" and self._mode == "w":
                 ctx.emit("HeaderEnd")
+            elif b == "tpy_mp.log" and self._mode == "a" and ctx.scen.get("dirs_events") and "Study successfully completed" in txt:
+                ctx.emit("Completed")
             elif b == "tpy_mp.log" and self._mode == "a":
                 m = re.search(r'Working on Case\s+(\d+) of', txt)
                 if m:
@@ -161,6 +163,8 @@ def install(ctx):
         c = case_from_path(path)
         if c is not None and "index_" in str(path):
             ctx.emit("WMkDir", c)
+        elif ctx.scen.get("dirs_events"):
+            ctx.emit("MkPPDir" if real_os.path.basename(str(path)) == "post_processing" else "MkStudyDir")
         return r
 
     def listdir(path):
